@@ -131,3 +131,36 @@ def stop_data_condition(ck, rule):
                   "at all): an empty mapping - the natural stop_data of a coroutine without "
                   "arguments - is silently skipped", fi, u.ast)
     ck.need(rule, n >= 3, f"only {n} uses of self._stop_data as final-run data found (3 expected)")
+
+
+def unknown_event_not_fatal(ck, rule, construct_suffix='unknown event not fatal'):
+    """SBlock.event: an EdzedUnknownEvent raised by the handler is re-raised as it is and never
+    reaches abort().  Two spellings are recognised: an own `except EdzedUnknownEvent: raise` clause
+    placed before the generic one, or, inside the generic handler, a bare `raise` under
+    `isinstance(<err>, EdzedUnknownEvent)` on whose failed outcome every path to abort() lies."""
+    ev = ck.prog.func('block:SBlock.event')
+    g = ck.cfg(ev.fid, 'M1')
+    hs = [n for n in g.nodes if n.kind == 'handler' and g.pred[n.id]]
+    gen = [h for h in hs if handler_types(h.ast) == ['Exception']]
+    unk = [h for h in hs if handler_types(h.ast) == ['EdzedUnknownEvent']]
+    aborts = nodes_where(g, lambda n: any(call_name(c) == 'abort' for c in node_calls(n)))
+    ok = False
+    if len(unk) == 1 and gen:
+        ok = len(unk[0].ast.body) == 1 and isinstance(unk[0].ast.body[0], ast.Raise) and \
+            unk[0].ast.body[0].exc is None and unk[0].ast.lineno < gen[0].ast.lineno and \
+            not any(g.dominates(unk[0], a) for a in aborts)
+    elif len(gen) == 1 and gen[0].ast.name:
+        en = gen[0].ast.name
+        want_t = canon_fact(ast.parse(f'isinstance({en}, EdzedUnknownEvent)', mode='eval').body, True)
+        want_f = canon_fact(ast.parse(f'isinstance({en}, EdzedUnknownEvent)', mode='eval').body, False)
+        rer = [n for n in g.nodes if n.kind == 'stmt' and isinstance(n.ast, ast.Raise) and n.ast.exc is None
+               and want_t in {canon_fact(e, p) for e, p in g.guards(n)}]
+        notunk = [n for n in g.nodes if n.kind == 'branch' and any(
+            canon_fact(e, p) == want_f for e, p in decompose(n.test.ast, n.polarity))]
+        ok = bool(rer) and bool(notunk) and all(
+            g.path_avoiding(gen[0], [a], avoid=notunk) is None for a in aborts if g.dominates(gen[0], a))
+    ck.ob(rule, f"{ev.fid} :: {construct_suffix}", ok,
+          "EdzedUnknownEvent is re-raised as it is and cannot reach abort()" if ok else
+          "an unknown event type is not simply re-raised (it may abort the simulation)", ev,
+          (unk[0].ast if unk else (gen[0].ast if gen else ev.node)))
+    return ok
